@@ -192,6 +192,8 @@ type obj struct {
 	fproto int64   // functions: id of .prototype (bound: of the target's), 0 = not an object
 	base   string
 	jsname string // built-in object referred to by name, never defined or converted
+	hasX   bool   // data property x (initial value memX) and the this-probe method f, for Reference cases
+	memX   prim
 }
 
 type value struct {
@@ -276,6 +278,9 @@ func (o *obj) define() string {
 	for _, k := range o.keys {
 		fmt.Fprintf(&b, "o%d[%s] = 1; ", o.id, jsStr(k))
 	}
+	if o.hasX {
+		fmt.Fprintf(&b, "o%d.x = %s; o%d.f = PROBE; ", o.id, o.memX.js(), o.id)
+	}
 	return b.String()
 }
 
@@ -292,6 +297,9 @@ const (
 	eInc
 	eLog
 	eSetM
+	eUnres
+	eMem
+	eCall
 )
 
 type expr struct {
@@ -332,6 +340,8 @@ func (e *expr) js() string {
 			return s40 + ".indexOf(\"a\", " + x + ")"
 		case e.op == 12:
 			return "String(" + x + ").length"
+		case e.op == 13:
+			return "(delete (" + x + "))"
 		default:
 			return "((" + x + ") >>> 0)"
 		}
@@ -352,6 +362,14 @@ func (e *expr) js() string {
 			return "(" + op + varNames[e.n] + ")"
 		}
 		return "(" + varNames[e.n] + op + ")"
+	}
+	switch e.kind {
+	case eUnres:
+		return "nope"
+	case eMem:
+		return fmt.Sprintf("o%d.%s", e.n, []string{"", "", "x", "f"}[e.op])
+	case eCall:
+		return "(" + e.sub[0].js() + ")()"
 	}
 	if e.kind == eSetM {
 		prop := []string{"valueOf", "toString"}[e.op]
@@ -381,6 +399,14 @@ func (e *expr) coq() string {
 		return fmt.Sprintf("(Cmp %d %d %s)", e.op, e.n, e.sub[0].coq())
 	case eInc:
 		return fmt.Sprintf("(Inc %s %s %d)", Cbool(e.pre), Cbool(e.dec), e.n)
+	}
+	switch e.kind {
+	case eUnres:
+		return "Unres"
+	case eMem:
+		return fmt.Sprintf("(Mem %d %d %s)", e.n, e.op, e.m.p.coq())
+	case eCall:
+		return "(Call " + e.sub[0].coq() + ")"
 	}
 	if e.kind == eSetM {
 		return fmt.Sprintf("(SetM %d %d %s)", e.n, e.op, e.m.coq())
@@ -847,7 +873,7 @@ func (g *gen) tree(depth int, objects, sideEffects bool) *expr {
 
 // ---------- running a case ----------
 
-const prelude = `var log = [], r, st, a, b, c; function __set_a(x){ a = x; } function __set_b(x){ b = x; } function __set_c(x){ c = x; } var OPV = Object.prototype.valueOf, OPT = Object.prototype.toString; var ORIG = {'Number.prototype.valueOf': Number.prototype.valueOf, 'Number.prototype.toString': Number.prototype.toString, 'String.prototype.valueOf': String.prototype.valueOf, 'String.prototype.toString': String.prototype.toString, 'Boolean.prototype.valueOf': Boolean.prototype.valueOf, 'Boolean.prototype.toString': Boolean.prototype.toString};`
+const prelude = `var GLOBAL = this; var PROBE = function(){ return this === GLOBAL ? 0 : (this !== undefined && this !== null && this.__id) || -1; }; PROBE.__id = 70; var log = [], r, st, a, b, c; function __set_a(x){ a = x; } function __set_b(x){ b = x; } function __set_c(x){ c = x; } var OPV = Object.prototype.valueOf, OPT = Object.prototype.toString; var ORIG = {'Number.prototype.valueOf': Number.prototype.valueOf, 'Number.prototype.toString': Number.prototype.toString, 'String.prototype.valueOf': String.prototype.valueOf, 'String.prototype.toString': String.prototype.toString, 'Boolean.prototype.valueOf': Boolean.prototype.valueOf, 'Boolean.prototype.toString': Boolean.prototype.toString};`
 
 func (g *gen) readVal(v otto.Value) string {
 	switch {
@@ -1394,6 +1420,134 @@ func (g *gen) reprCase() ([3]value, *expr) {
 	return vs, e
 }
 
+// References (8.7): which operators hand on a Reference and which apply GetValue.  Parentheses keep the Reference,
+// && || ?: and the comma operator return a value; typeof, delete and a call tell the difference
+// (unresolvable name, property removed or not, this = base object or global object).
+func (g *gen) refCase() ([3]value, *expr) {
+	r := g.env.Rng
+	vs := g.vars(false, false)
+	mkobj := func() *obj {
+		g.nextID++
+		o := &obj{id: g.nextID, base: "{}", chain: []int64{90}, fproto: -1, vo: g.meth(false), ts: g.meth(false), hasX: true,
+			memX: Pick(r, []prim{pNum(5), pStr("s"), pBool(true), pNum(0), pUndef(), pNull()})}
+		g.objs = append(g.objs, o)
+		return o
+	}
+	o1, o2 := mkobj(), mkobj()
+	mem := func(o *obj, k int) *expr { return &expr{kind: eMem, n: o.id, op: k, m: meth{p: o.memX}} }
+	leaf := func() *expr {
+		switch r.Intn(8) {
+		case 0, 1:
+			return &expr{kind: eUnres}
+		case 2:
+			return mem(o1, 2)
+		case 3, 4:
+			return mem(o1, 3)
+		case 5:
+			return mem(o2, 3)
+		case 6:
+			return evar(r.Intn(3))
+		default: // literals only: undefined, NaN and Infinity are identifiers (References to global properties)
+			return lit(pv(Pick(r, []prim{pNum(7), pStr("v"), pBool(false), pNull(), pNum(0), pStr("")})))
+		}
+	}
+	truthy := func() *expr { return lit(pv(Pick(r, []prim{pNum(1), pStr("t"), pBool(true), pNum(-1)}))) }
+	falsy := func() *expr { return lit(pv(Pick(r, []prim{pNum(0), pStr(""), pBool(false), pNull()}))) }
+	var wrap func(depth int) *expr
+	wrap = func(depth int) *expr {
+		x := leaf()
+		if depth > 0 && r.Intn(3) == 0 {
+			x = wrap(depth - 1)
+		}
+		switch r.Intn(9) {
+		case 0:
+			return x // parenthesised: still the Reference
+		case 1:
+			return bin(22, falsy(), x)
+		case 2:
+			return bin(21, truthy(), x)
+		case 3:
+			return cond(truthy(), x, leaf())
+		case 4:
+			return cond(falsy(), leaf(), x)
+		case 5:
+			return bin(23, lit(num(0)), x)
+		case 6:
+			return bin(22, falsy(), bin(22, falsy(), x))
+		case 7:
+			return bin(21, x, leaf())
+		default:
+			return bin(22, x, leaf())
+		}
+	}
+	w := wrap(1)
+	var use *expr
+	switch r.Intn(8) {
+	case 0, 1:
+		use = un(4, w)
+	case 2, 3:
+		use = un(13, w)
+	case 4, 5:
+		use = &expr{kind: eCall, sub: []*expr{w}}
+	case 6:
+		use = bin(Pick(r, []int{13, 14, 23}), w, lit(num(1)))
+	default:
+		use = un(4, &expr{kind: eCall, sub: []*expr{w}})
+	}
+	// afterwards: is o1.x still there, does o1.f still answer with o1
+	e := bin(23, asg(1, use), bin(23, asg(2, mem(o1, 2)), &expr{kind: eCall, sub: []*expr{mem(o1, 3)}}))
+	if r.Intn(4) == 0 {
+		e = bin(23, asg(1, use), un(4, mem(o1, 3)))
+	}
+	return vs, e
+}
+
+// ToNumber of strings around Infinity and NaN: every spelling with sign, white space and letter case, by every route
+func (g *gen) infinityCase() ([3]value, *expr) {
+	r := g.env.Rng
+	vs := g.vars(false, false)
+	body := Pick(r, []string{"Infinity", "Infinity", "Infinity", "Infinity", "Infinity", "Infinity", "Infinity", "Infinity", "INFINITY", "infinity", "Inf", "inf", "INF", "Infinit", "Infinityx", "Infinity0", "InfinityInfinity", "NaN", "nan", "NAN", "Nan", "Infinity.", "1Infinity", "Infinitye1"})
+	sign := Pick(r, []string{"", "+", "-", "+", "-", "+", "-", "", "++", "+-", "+ ", "- "})
+	t := sign + body
+	u := Units(t)
+	switch r.Intn(4) {
+	case 0:
+		u = append([]uint16{Pick(r, wsUnits)}, u...)
+	case 1:
+		u = append(append([]uint16{Pick(r, wsUnits), Pick(r, wsUnits)}, u...), Pick(r, wsUnits))
+	case 2:
+		if r.Intn(3) == 0 { // white space inside
+			u = append(append(Units(sign), Pick(r, wsUnits)), Units(body)...)
+		}
+	}
+	sv := pv(pUnits(u))
+	x := g.operand(sv, &vs, 0)
+	var e *expr
+	switch r.Intn(10) {
+	case 0:
+		e = un(0, x)
+	case 1:
+		e = un(6, x)
+	case 2:
+		e = un(1, x)
+	case 3:
+		e = bin(Pick(r, []int{1, 2, 3, 4}), x, lit(num(Pick(r, []float64{1, -1, 0, 2}))))
+	case 4:
+		e = bin(Pick(r, []int{11, 12}), x, lit(num(Pick(r, []float64{math.Inf(1), math.Inf(-1), math.NaN(), 0}))))
+	case 5:
+		e = bin(Pick(r, []int{15, 16, 17, 18}), x, lit(num(Pick(r, []float64{math.Inf(1), math.Inf(-1), 0, 1.7976931348623157e308}))))
+	case 6:
+		e = bin(Pick(r, []int{15, 16, 17, 18}), lit(num(Pick(r, []float64{math.Inf(1), math.Inf(-1), 0}))), x)
+	case 7:
+		e = un(Pick(r, []int{2, 9, 10, 11}), x)
+	case 8:
+		e = bin(Pick(r, []int{5, 6, 8, 10}), x, lit(num(1)))
+	default:
+		e = bin(11, lit(pv(pBool(r.Intn(2) == 0))), x)
+	}
+	return vs, e
+}
+
 // a Go scalar of every kind, by every route into a Value, under every conversion and operator
 func (g *gen) goEntryCase() ([3]value, *expr) {
 	r := g.env.Rng
@@ -1768,6 +1922,13 @@ func runC05(env *Env) {
 	}
 	g.intRepr(9007199254740993, 0)
 	g.intRepr(60032052788413712, 1)
+	{ // class 10: typeof (1 ? nope : 0), and (1 ? o.f : 0)() with this = o
+		g.runCase([3]value{pv(pUndef()), pv(pUndef()), pv(pUndef())}, un(4, cond(lit(num(1)), &expr{kind: eUnres}, lit(num(0)))), "pinned", true)
+		g.nextID++
+		o := &obj{id: g.nextID, base: "{}", chain: []int64{90}, fproto: -1, vo: meth{inherit: true}, ts: meth{inherit: true}, hasX: true, memX: pNum(5)}
+		g.objs = append(g.objs, o)
+		g.runCase([3]value{pv(pUndef()), pv(pUndef()), pv(pUndef())}, &expr{kind: eCall, sub: []*expr{cond(lit(num(1)), &expr{kind: eMem, n: o.id, op: 3, m: meth{p: o.memX}}, lit(num(0)))}}, "pinned", true)
+	}
 	{ // class 9: a number held as a Go float32 is printed with float32-shortest digits
 		Must(g.vm.Set("__n", nF32(0.1)))
 		o := RunJS(g.vm, `String(__n) + "|" + (__n === 0.10000000149011612)`)
@@ -1810,6 +1971,16 @@ func runC05(env *Env) {
 				}
 				g.runCase(vs, bin(op, a, b), "core-binary", true)
 			}
+			continue
+		}
+		if r.Intn(14) == 0 {
+			vs, e := g.refCase()
+			g.runCase(vs, e, "reference", true)
+			continue
+		}
+		if r.Intn(20) == 0 {
+			vs, e := g.infinityCase()
+			g.runCase(vs, e, "infinity-spelling", true)
 			continue
 		}
 		if r.Intn(12) == 0 {
